@@ -147,7 +147,7 @@ def run_py(d: str, script: str, args: list[str], timeout: int = 120) -> tuple[in
     try:
         p = subprocess.run([PY, "_drv.py"] + args, cwd=d, env=repo_env(), capture_output=True, text=True, timeout=timeout)
     except subprocess.TimeoutExpired:
-        return -999, "timeout"
+        return 0, "TIMEOUT"            # inconclusive, never counted as a crash
     return p.returncode, p.stdout + p.stderr[-800:]
 
 
@@ -236,7 +236,7 @@ def dynamic_corpus(ctx: Ctx, tag: str, source: str, files: dict[str, str]) -> di
     d, log = real_build(ctx, tag, fs, ["native"])
     if d is None:
         return {"built": False, "log": log}
-    rc, out = run_py(d, LEAK_LOOP, [], timeout=300)
+    rc, out = run_py(d, LEAK_LOOP, [], timeout=120)
     res: dict[str, Any] = {"built": True, "failures": [], "output": out[-300:]}
     if rc < 0 or rc in (134, 139):
         res["failures"].append({"class": "crash", "exit_code": rc, "signal": -rc if rc < 0 else None})
